@@ -192,3 +192,39 @@ Qed.
 Example C08_example_script_is_loaded :
   from_reader 0 (p_script er_var [STR "filetag"] ex_nodes) = Some (map mean_node ex_nodes).
 Proof. vm_compute. reflexivity. Qed.
+
+(* ... and with the expressions written as tokens of the real lexer's vocabulary (Proofs/ExprTokens.v:
+   minimal parentheses over the generated precedence table, `$x`, `"s"`, digits, true / false / null),
+   nothing is left as a parameter.  Proofs/ExprFuelProofs.v makes the fuel of the expression parser
+   explicit (2 * tokens + 1 suffice; the model gives 4 * tokens + 4).  The one condition on expressions:
+   the text written for a number is read back as that number ([ewf_min]: num_ok on every numeral -
+   number(string(x)) = x is not proved in general, it is checked per literal by computation). *)
+From YS Require Import Proofs.ExprTokens Proofs.ScriptTokens.
+
+Theorem C08_every_written_script_is_loaded_real_tokens : forall tags ns,
+  ns <> [] -> Forall (node_ok er_min ewf_min) ns ->
+  from_reader 0 (p_script er_min tags ns) = Some (map mean_node ns).
+Proof. exact written_script_tokens_are_loaded. Qed.
+Print Assumptions C08_every_written_script_is_loaded_real_tokens.
+
+(* non-vacuity: a node whose line interpolates a variable and whose option is guarded by a call meets the
+   hypotheses (no numerals: nothing is asked of the expressions) *)
+Definition ex_nodes3 : list wnode :=
+  [{| wheaders := [(STR "title", Some (STR "Start"))];
+      wbody := [WLine {| ltext := [TText (STR "hi "); TExpr (EVar (STR "x"))]; lcond := Some (ENot (EVar (STR "b"))); ltags := [] |};
+                WSet (STR "x") SAssign (EBin OAdd (EVar (STR "x")) (EVal (VStr (STR "!"))))] |}].
+Example C08_example_script3_hypotheses : Forall (node_ok er_min ewf_min) ex_nodes3.
+Proof.
+  assert (H1 : ewf_min (EVar (STR "x"))) by (unfold ewf_min; cbn [print_min]; constructor; [exact I|constructor]).
+  assert (H2 : ewf_min (ENot (EVar (STR "b")))) by (unfold ewf_min; cbn [print_min]; constructor; [exact I|constructor; [exact I|constructor]]).
+  assert (H3 : ewf_min (EBin OAdd (EVar (STR "x")) (EVal (VStr (STR "!"))))).
+  { unfold ewf_min. apply Forall_forall. intros t Ht. destruct t as [| | | |o|a|f]; try exact I.
+    destruct a as [v|y|]; try exact I. destruct v as [n|bb|ss]; try exact I.
+    exfalso. vm_compute in Ht. repeat (destruct Ht as [Ht|Ht]; [discriminate Ht|]). exact Ht. }
+  constructor; [|constructor]. split; [discriminate|]. cbn [wbody].
+  apply wfs_cons; [apply wf_line|apply wfs_cons; [apply wf_set; exact H3|apply wfs_nil]].
+  split; [discriminate|]. split; [constructor; [discriminate|constructor; [exact H1|constructor]]|]. split; [exact I|exact H2].
+Qed.
+Example C08_example_script3_is_loaded :
+  from_reader 0 (p_script er_min [] ex_nodes3) = Some (map mean_node ex_nodes3).
+Proof. apply C08_every_written_script_is_loaded_real_tokens; [discriminate|exact C08_example_script3_hypotheses]. Qed.
